@@ -887,7 +887,7 @@ func (s *c08Scenario) sendCallReq(p *c08Plan) {
 		}
 		binary.BigEndian.PutUint32(want[1:5], ttl)
 		if f.Type != 0x03 || !bytes.Equal(f.Payload, want) {
-			s.fail("%s: forwarded call req differs from the original beyond id and ttl=min(%d,%d) (type %#x, %d vs %d payload bytes, first difference at %d)", why, p.ttl, s.maxMs, f.Type, len(f.Payload), len(want), firstDiff(f.Payload, want))
+			s.fail("%s: forwarded call req differs from the original beyond id and ttl=min(%d,%d) (type %#x, %d vs %d payload bytes, first difference at %d)", why, p.ttl, s.maxMs, f.Type, len(f.Payload), len(want), rfFirstDiff(f.Payload, want))
 			return
 		}
 		s.freshDestID(p, f.ID, why)
@@ -973,7 +973,7 @@ func (s *c08Scenario) sendCallReq(p *c08Plan) {
 	p.ck = ck
 }
 
-func firstDiff(a, b []byte) int {
+func rfFirstDiff(a, b []byte) int {
 	for i := 0; i < len(a) && i < len(b); i++ {
 		if a[i] != b[i] {
 			return i
@@ -1572,7 +1572,7 @@ func runC08Hop2(rng *rand.Rand, o *Out, id string) {
 				did = f.ID
 			}
 			if f.Type != fr[2] || f.ID != did || !bytes.Equal(f.Payload, wantP) {
-				verdict = fmt.Sprintf("after two relays frame %d differs from the original beyond id and ttl=min(%d, maxima)=%d (type %#x, first difference at payload byte %d)", i, ttl, want, f.Type, firstDiff(f.Payload, wantP))
+				verdict = fmt.Sprintf("after two relays frame %d differs from the original beyond id and ttl=min(%d, maxima)=%d (type %#x, first difference at payload byte %d)", i, ttl, want, f.Type, rfFirstDiff(f.Payload, wantP))
 				break
 			}
 		}
